@@ -14,7 +14,8 @@ pub const WFAMS: [&str; 6] = ["non_negative", "potentials", "negative_dag", "pla
 /// A weighted digraph with isize weights. Returns (model, weight family).
 pub fn gen_case(r: &mut Rng, max: usize, allow_neg_circuit: bool) -> (Model, &'static str, &'static str) {
     let wf = r.below(WFAMS.len());
-    let n = gen::small_order(r, max);
+    let n = if r.chance(0.3) { gen::algo_order(r, max, 65) } else { gen::small_order(r, max) };
+    let big = n > max;
     let (fam, mut m);
     match WFAMS[wf] {
         "negative_dag" => {
@@ -23,12 +24,12 @@ pub fn gen_case(r: &mut Rng, max: usize, allow_neg_circuit: bool) -> (Model, &'s
             gen::weights(r, &mut m, WClass::NegDag);
         }
         "potentials" => {
-            fam = r.below(gen::FAMILIES.len());
+            fam = if big { gen::sparse_family(r) } else { r.below(gen::FAMILIES.len()) };
             m = gen::family(r, fam, n);
             gen::weights(r, &mut m, WClass::Potentials);
         }
         "planted_neg_circuit" if allow_neg_circuit => {
-            fam = r.below(gen::FAMILIES.len());
+            fam = if big { gen::sparse_family(r) } else { r.below(gen::FAMILIES.len()) };
             m = gen::family(r, fam, n);
             gen::weights(r, &mut m, WClass::Small);
             // plant a circuit of negative total weight on 2..4 vertices
@@ -51,7 +52,7 @@ pub fn gen_case(r: &mut Rng, max: usize, allow_neg_circuit: bool) -> (Model, &'s
             }
         }
         "mixed_negative" if allow_neg_circuit => {
-            fam = r.below(gen::FAMILIES.len());
+            fam = if big { gen::sparse_family(r) } else { r.below(gen::FAMILIES.len()) };
             m = gen::family(r, fam, n);
             gen::weights(r, &mut m, WClass::MixedNeg);
         }
@@ -66,7 +67,7 @@ pub fn gen_case(r: &mut Rng, max: usize, allow_neg_circuit: bool) -> (Model, &'s
             }
         }
         _ => {
-            fam = r.below(gen::FAMILIES.len());
+            fam = if big { gen::sparse_family(r) } else { r.below(gen::FAMILIES.len()) };
             m = gen::family(r, fam, n);
             let wc = *r.pick(&[WClass::Unit, WClass::ZeroOne, WClass::Small, WClass::Large]);
             gen::weights(r, &mut m, wc);
@@ -93,7 +94,14 @@ pub fn case(idx: u64, seed: u64, p: &Params, o: &mut CaseOut) {
     let mut r = Rng::for_case(7, seed, idx);
     let (m, wf, fam) = gen_case(&mut r, p.usize("max_order", 14), true);
     let n = m.n();
-    let d = if r.chance(0.5) { build_w_isize(&m) } else { build_w_isize_alt(&m) };
+    let k = isize_scale(&mut r, &m);
+    let d = if k > 1 {
+        build_w_isize_scaled(&m, k)
+    } else if r.chance(0.5) {
+        build_w_isize(&m)
+    } else {
+        build_w_isize_alt(&m)
+    };
     let any_neg_circuit = m.has_negative_circuit();
     let nonneg = m.arcs.values().all(|&w| w >= 0);
     let mut neg_reach = false;
@@ -103,7 +111,7 @@ pub fn case(idx: u64, seed: u64, p: &Params, o: &mut CaseOut) {
         if m.arcs.iter().any(|(&(u, _), &w)| w < 0 && reach.contains(&u)) {
             neg_reach = true;
         }
-        let want = ref_row(&m, s);
+        let want = ref_row(&m, s).map(|row| row.into_iter().map(|x| if x == isize::MAX { x } else { x * k }).collect::<Vec<isize>>());
         let mut bfm = BellmanFordMoore::new(&d, s);
         let got: Option<Vec<isize>> = bfm.distances().map(<[isize]>::to_vec);
         match (&want, &got) {
@@ -129,7 +137,7 @@ pub fn case(idx: u64, seed: u64, p: &Params, o: &mut CaseOut) {
         }
         if nonneg {
             if let Some(g) = &got {
-                let du = build_w_usize(&m);
+                let du = build_w_usize_scaled(&m, k as usize);
                 let dj = DijkstraDist::new(&du, std::iter::once(s)).distances();
                 let dj: Vec<isize> = dj.iter().map(|&x| if x == usize::MAX { isize::MAX } else { x as isize }).collect();
                 // Dijkstra has its own property (C03); only report a disagreement that the model attributes to BFM
@@ -149,6 +157,9 @@ pub fn case(idx: u64, seed: u64, p: &Params, o: &mut CaseOut) {
     o.bump(fam);
     o.bumpn("arcs%4", m.size() % 4);
     o.bumpn("order", n);
+    if k > 1 {
+        o.bump("weights_scaled_up");
+    }
     if n_none > 0 {
         o.bump("cases_with_None_required");
     }
@@ -159,6 +170,6 @@ pub fn case(idx: u64, seed: u64, p: &Params, o: &mut CaseOut) {
         o.bump("cases_with_Some_and_negative_arcs");
     }
     if o.want_desc {
-        o.desc = format!("AdjacencyListWeighted<isize> weights={wf} family={fam} {} (all {n} sources)", m.describe());
+        o.desc = format!("AdjacencyListWeighted<isize> weights={wf} family={fam} {} (all {n} sources; every weight multiplied by {k})", m.describe());
     }
 }
